@@ -68,6 +68,10 @@ def run(ctx, col, tier):
              "removal set marks exactly the given ids; cut callbacks / type / order rules feed "
              "that set as stated (decision tables)", floor=10)
     col.rule("R-CG", "recursion-free", floor=3)
+    col.rule("R-ORDER", "no recurrence along the node numbering in the selection / compaction code: "
+             "no loop over rows in storage order reads, at the row's parent, an array it fills in "
+             "that loop (right only when parents are stored before children); zero expected, "
+             "positive examples kept", floor=1)
     col.rule("R-PURE", "operations leave the source untouched and return fresh storage (shared "
              "with C03)", floor=6)
     col.not_decided += ["tip-branch length threshold arithmetic (values)", "callback results at run time"]
@@ -106,13 +110,16 @@ def run(ctx, col, tier):
     col.check(ok, "R-UNIF", d.qualname, d.loc(rets[0]) if rets else d.loc(), "returns (count of kept nodes, columns, source, names)",
               "", "tree arguments are not (number of kept nodes, gathered columns, source, names)", stmt="ret")
     d2 = repo.get_def(f"{TU}.to_sub_tree")
-    gather_rule(ctx, col, d2, "swc_like", ["swc_like.keys()"], "to_sub_tree (deprecated)")
+    col.guard(gather_rule, ctx, col, d2, "swc_like", ["swc_like.keys()"], "to_sub_tree (deprecated)")
     d3 = repo.get_def("swcgeom.core.branch_tree.BranchTree.from_tree")
-    gather_rule(ctx, col, d3, "tree", ["tree.keys()"], "BranchTree.from_tree")
+    col.guard(gather_rule, ctx, col, d3, "tree", ["tree.keys()"], "BranchTree.from_tree")
 
-    sentinels(ctx, col)
-    compaction(ctx, col)
-    selection(ctx, col)
+    from ..rules import orderdep
+    col.guard(orderdep.check, ctx, col, "R-ORDER", (SUB, IMPL, TU, "swcgeom.transforms.tree", "swcgeom.core.swc_utils.base"),
+              "subtree / pruning code")
+    col.guard(sentinels, ctx, col)
+    col.guard(compaction, ctx, col)
+    col.guard(selection, ctx, col)
 
     for q, what in ((f"{TU}.get_subtree", "get_subtree"), (f"{TU}.to_subtree", "to_subtree"),
                     (f"{TU}.cut_tree", "cut_tree")):
@@ -170,9 +177,17 @@ def sentinels(ctx, col):
         cond_eq = norm_src(ie.test) in (f"{v} == -1",) and const_int(ie.body) == -1 and \
             isinstance(ie.orelse, ast.Subscript) and norm_src(ie.orelse.slice) == v
         ok = cond_ne or cond_eq
-    col.judge(len(lcs) == 1, ok, "R-SENT", t.qualname, t.loc(lcs[0]) if lcs else t.loc(),
-              "parent remap: -1 stays -1, every other parent goes through old->new", txt,
-              f"`{txt}` does not keep the root marker / remap the others", stmt="remap")
+    defaulted = [n for n in own_nodes(t) if isinstance(n, ast.ListComp) and isinstance(n.elt, ast.Call)
+                 and isinstance(n.elt.func, ast.Attribute) and n.elt.func.attr == "get" and len(n.elt.args) == 2
+                 and const_int(n.elt.args[1]) == -1]
+    if not lcs and defaulted:
+        col.bad("R-SENT", t.qualname, t.loc(defaulted[0]), "parent remap: -1 stays -1, every other parent goes through old->new",
+                f"`{norm_src(defaulted[0].elt)}` maps every parent that is not among the kept nodes to -1: a survivor whose "
+                f"parent was dropped silently becomes a second root instead of being an error", stmt="remap")
+    else:
+        col.judge(len(lcs) == 1, ok, "R-SENT", t.qualname, t.loc(lcs[0]) if lcs else t.loc(),
+                  "parent remap: -1 stays -1, every other parent goes through old->new", txt,
+                  f"`{txt}` does not keep the root marker / remap the others", stmt="remap")
     # propagate_removal
     p = repo.get_def(f"{SUB}.propagate_removal")
     cb = p.nested.get("propagate")
